@@ -1329,8 +1329,10 @@ def dynamic_script(rng, U=2):
         ops.append({'now': t, 'acts': []})
     # a group is stopped and removed at run time; the children of the other groups go on living, exit and must still
     # be attributed (removal must not disturb the pid table entries of other groups, equal priorities included)
+    removed = None
     if rng.random() < 0.5 and ng >= 2:
         g = rng.randrange(ng)
+        removed = g
         t += 2
         req += 1
         ops.append({'now': t, 'acts': [['rpc', 500 + req, 'stopgroup', g, 1]], 'killq': []})
@@ -1348,9 +1350,17 @@ def dynamic_script(rng, U=2):
         # the configuration is read again (reloadConfig) while children are alive: they must stay tracked
         t += 1
         req += 1
-        ops.append({'now': t, 'acts': [['reread', 700 + req], ['exit', rng.randrange(4), 0]]})
+        edited = rng.random() < 0.6
+        ops.append({'now': t, 'acts': [['reread', 700 + req, 1 if edited else 0], ['exit', rng.randrange(4), 0]]})
         t += 2
-        ops.append({'now': t, 'acts': [['exit', rng.randrange(4), 1]]})
+        acts = [['exit', rng.randrange(4), 1]]
+        active = [g_ for g_ in range(ng) if g_ != removed]
+        if rng.random() < 0.7 and active:
+            # adding a group that is already active is refused (ALREADY_ADDED), whether or not the file now describes it
+            # differently: its processes and their children stay as they are
+            req += 1
+            acts = [['addgroup', rng.choice(active), 800 + req]] + acts
+        ops.append({'now': t, 'acts': acts})
         t += 2
         ops.append({'now': t, 'acts': []})
     t += 4
